@@ -1,6 +1,7 @@
 """Orchestration of one property check: deductive obligations (engine A), bounded stand-ins, failing-input
 search + replay files, known findings, evidence."""
 import importlib
+import inspect
 import json
 import os
 import sys
@@ -50,7 +51,25 @@ def native_callable(key):
     modname = filekey[:-3].replace('/', '.')
     mod = importlib.import_module(modname)
     obj = mod
-    for part in qual.split('.'):
+    parts = qual.split('.')
+    for i, part in enumerate(parts):
+        if inspect.isfunction(obj) or hasattr(obj, 'py_func'):
+            # a function defined inside a function cannot be reached from outside: its `def` is taken, unchanged, from the source of
+            # the enclosing function of the imported module (the tree under test) and compiled in that module's namespace (it refers to
+            # itself and to module-level names only; a closure over locals of the enclosing function would fail here, visibly)
+            import ast as _ast
+            import textwrap
+            outer = getattr(obj, 'py_func', obj)
+            tree = _ast.parse(textwrap.dedent(inspect.getsource(outer)))
+            node = tree.body[0]
+            for p_ in parts[i:]:
+                found = [n for n in node.body if isinstance(n, _ast.FunctionDef) and n.name == p_]
+                if not found:
+                    raise AttributeError('%s not found inside %s' % (p_, qual))
+                node = found[-1]
+            ns = dict(vars(mod))
+            exec(compile(_ast.Module([node], []), getattr(mod, '__file__', '<nested>'), 'exec'), ns)
+            return ns[node.name]
         obj = getattr(obj, part)
     return obj
 
